@@ -560,6 +560,14 @@ pub fn run_check<K: Check>(check: &K, opts: &Options) -> i32 {
     samples.truncate(4);
     violations.sort_by_key(|v| v.0);
 
+    // internal consistency counters of the harness (e.g. two independent reference components
+    // disagreeing with each other) are harness errors, never violations
+    for (k, n) in &counters {
+        if k.starts_with("HARNESS_ERROR.") && *n > 0 {
+            eprintln!("HARNESS-ERROR {} occurred {} times in check {}", k, n, check.id());
+            return 2;
+        }
+    }
     for (k, n) in &known_hits {
         println!(
             "KNOWN-FINDING: property={} {} [{} occurrences this run, entry {}]",
